@@ -24,12 +24,12 @@ MCMonth == \E crops \in {I(0), I(2)}, meat \in {I(0), I(2)}, charge \in {I(0), I
               sfh \in Grid, sff \in {I(0), I(1)}, ch \in Grid, cf \in {I(0), I(1)}, me \in Grid :
   Month([m |-> mon,
          sup |-> [crops |-> crops, meat |-> meat, scp |-> Zero, cs |-> Zero, built |-> Zero, growth |-> Zero,
-                  feed |-> charge, bio |-> Zero],
+                  feed |-> charge, bio |-> Zero, milk |-> Zero, fish |-> Zero, gh |-> Zero],
          a |-> [sf |-> [h |-> sfh, f |-> sff, b |-> Zero], crops |-> [h |-> ch, f |-> cf, b |-> Zero],
                 scp |-> Z3, cs |-> Z3, sw |-> [h |-> Zero, f |-> Zero, b |-> Zero, wet |-> Zero, area |-> Zero],
                 meat |-> me]])
 
-MCFinish == mon = NMonths /\ Finish(NMonths)
+MCFinish == mon = NMonths /\ Finish(NMonths, fedMin)
 Next == MCBegin \/ (mon < NMonths /\ MCMonth) \/ MCFinish
 Spec == LInit /\ [][Next]_lvars
 =============================================================================
